@@ -132,6 +132,9 @@ void harness(void)
 # if defined DATEONLY
 	ASSUME(in.dur == 0);
 # endif
+# if defined ONEDAY
+	ASSUME(in.t == -1 || in.t == 0);
+# endif
 	const long long stamp = in.t * 86400LL + in.dur;
 	echs_instant_t r = epoch_to_echs_instant((time_t)stamp);
 	CHECK(r.y >= 1901 && r.y <= 2099 && r.m >= 1 && r.m <= 12 && r.d >= 1 && r.d <= 31 && orc_valid_date_p(r.y, r.m, r.d), "epoch_to_instant yields a valid date");
